@@ -3,3 +3,4 @@ pub mod c14;
 pub mod c11;
 pub mod c03;
 pub mod c08;
+pub mod c02;
